@@ -20,7 +20,7 @@ cp "$WT/seed_demo/patch.diff" "seeded/$ID/patch.diff"
 mkdir -p "seeded/$ID/demo"; cp -r "$WT"/seed_demo/* "seeded/$ID/demo/" 2>/dev/null; rm -f "seeded/$ID/demo/patch.diff"
 find "seeded/$ID/demo" -type f \( -name '*.o' -o -perm -u+x ! -name '*.sh' \) -size +100k -delete 2>/dev/null
 for r in build/tmp/seed-replays-$ID/*/*.plan; do [ -f "$r" ] && cp "$r" "seeded/$ID/" ; done 2>/dev/null
-rm -rf "build/tmp/seed-replays-$ID" build/repo-$(printf '%s' "$WT" | md5sum | cut -c1-10)-*
+rm -rf "build/tmp/seed-replays-$ID" build/repo-$(printf '%s' "$WT" | md5sum | cut -c1-10)-* build/w2-$(printf '%s' "$WT" | md5sum | cut -c1-10)-*
 echo "{\"id\":\"$ID\",\"property\":\"$PROP\",\"make_test_rc\":$mt,\"demo_with_change_rc\":$with,\"demo_without_change_rc\":$without,\"check_cmd\":\"VERIF_REPO=<worktree with patch> ./check $PROP --secs $SECS\",\"check_rc\":$rc}" > "seeded/$ID/result.json"
 # meta.json: written here from the run itself; `change` / `needs_to_manifest` are the seeding agent's own words (demo/NOTES.md)
 python3 - "$ID" "$PROP" "$SECS" "$mt" "$with" "$without" "$rc" "$(echo "$out" | grep -m3 '^violation class=' | sed 's/^violation class=//; s/ (run.*//; s/ (w2 run.*//' | tr '\n' '|')" <<'PY'
